@@ -1,7 +1,7 @@
 (* C20 — property theorems (statements only; proofs live in Proofs*.v). *)
 From Coq Require Import ZArith QArith Qround Qabs Bool List Sorted Permutation.
 Require Import QV.common.Util QV.common.Ctl QV.C20.Model QV.C20.Spec QV.C20.ProofsNum QV.C20.ProofsWin QV.C20.ProofsShrink.
-Require Import QV.C20.ForLoop QV.C20.Gen_performance QV.C20.GenEq QV.C20.ProofsAvg.
+Require Import QV.C20.ForLoop QV.C20.Gen_performance QV.C20.GenEq QV.C20.ProofsAvg QV.C20.ProofsMem.
 Import ListNotations.
 Open Scope Q_scope.
 
@@ -111,6 +111,18 @@ Print Assumptions C20_average_variants_equal_refuted.
 Definition C20_sampling_statement : Prop :=
   forall chans markers rate wfs,
     outcome_eqb (list_eqb sampled_eqb) (sample_waveforms chans markers rate wfs) (spec_sample chans markers rate wfs) = true.
+
+(* the part of it that is proved: a written segment reads back unchanged, a later write further right leaves it alone *)
+Theorem C20_sampling_partial : forall (A : Type) (row : list A) (pos : nat) (xs : list A),
+  (pos + length xs <= length row)%nat ->
+  firstn (length xs) (skipn pos (write_at row pos xs)) = xs
+  /\ (forall pos2 n2, (pos2 + n2 <= pos)%nat -> firstn n2 (skipn pos2 (write_at row pos xs)) = firstn n2 (skipn pos2 row))
+  /\ length (write_at row pos xs) = length row.
+Proof.
+  exact (fun A row pos xs H => conj (read_own_write row pos xs H)
+           (conj (fun pos2 n2 H2 => read_left_of_write row pos xs pos2 n2 H2 H) (write_at_length row pos xs H))).
+Qed.
+Print Assumptions C20_sampling_partial.
 
 (* ---- the loop kernels re-translated from /repo on every run compute the clean models ---- *)
 Theorem C20_translated_shrink_is_model : forall bs ls, length bs = length ls ->
